@@ -37,6 +37,11 @@ CLAIMED = {
    "Mirror part: every document of <= 3 units (4 thorough) over {a, é, 😀, LF, CRLF} x every range-less change and every ranged change with start/end drawn from all positions (lines 0..lines+1, characters 0..maxLineLen+2, empty range at 0:0, ends past line/document end; positions inside a surrogate pair excluded) x 7 replacement texts, sent as JSON through the real decoder; two-change notifications on documents of <= 2 (3) units. Server text must equal a reference UTF-16 buffer with the LSP clamping rules. History part: BFS to depth 3 (4) over 34 operations (open/full change/ranged diff edit/close on two URIs and 4 journal texts incl. CRLF+non-BMP, and the cache-populating requests inlineCompletion, completion, semanticTokens, documentSymbol); after every step the texts must match and documentSymbol, foldingRange, formatting, completion, hover, inlineCompletion, semanticTokens and the last diagnostics must equal those of a fresh server that only opened the current text.",
    "Reference buffer follows vscode-languageserver-textdocument (clamp before the line terminator). Lone CR line ends and texts outside the unit alphabet are not covered; state key = texts + dump of documents, resolved, payeeTemplatesCache, tokenCache, settings, taken before the oracle probes.",
    "DESIGN.md §4.1, §5 C01"),
+ "C03": ("exploration",
+   "deviation-bounded exhaustive enumeration of journals rendered from a model of grammar G; parser output compared field by field with the model",
+   "Journals are rendered from a model (two default transactions; ~190 single deviations in ~45 parameter groups covering every terminal shape and layout parameter of G: dates, secondary date, status, code, description/payee/note shapes incl. ALLCAPS, leading digits, colons, currency signs, non-BMP, header and posting comments with tags, posting count/indent/status/kind, account shapes, separators incl. tab, 10 commodity forms, sign placements, 15 number spellings, costs, assertions, every directive kind before/between/after, CRLF, missing final newline, 0/2 blank lines). Every journal with <= 2 deviations, and <= 3 over header/amount/line-end parameters (quick) or <= 3 over the whole catalogue (thorough), plus every ordered pair of entry kinds adjacent with 0 and 1 blank lines, is parsed by the real parser: no syntax error, and every semantic field (dates, status, code, description/payee/note, comments, tags, accounts, kinds, exact quantities as rationals, commodities and side, costs, assertions, directive payloads, counts) equals the model; published code-less diagnostics equal the parse errors.",
+   "The model/renderer is the ground truth (text is rendered from it, nothing is parsed by the oracle). A journal whose deviation set contains an already failing proper subset is charged to that subset. hledger syntax outside G (periodic/auto postings, aliases, apply account, lot prices, one-mark-three-digit numbers) is not covered.",
+   "DESIGN.md §4.2, Appendix A, §5 C03"),
 }
 
 NOT_YET = "check not built yet in this session (work in progress; see DESIGN.md §5 for the plan)"
